@@ -13,8 +13,16 @@
                    (i is the first element of order with f), zi i = i+1 (member i's error / message),
                    plain_results (every member's message at its own index), single_at (one message
                    at its index), all_plain ms (no member watches its context). *)
+From Coq Require Import QArith.
 From SC Require Import Base.Prelude Group.Exec Group.C17Judge Group.ExecLemmas Group.ExecProofs
-  Group.ExecAwareProofs Group.ContractProofs Group.ExecProc Group.ExecProcProofs.
+  Group.ExecAwareProofs Group.ContractProofs
+  Group.ExecPc Group.C17PJudge Group.ExecPcProofs Group.ExecShape
+  Group.TraitGroup Group.TraitGroupJudge Group.TraitGroupProofs Group.TraitGroupPullProofs
+  Group.TraitGroupPullReduce.
+(* imported last: its pstate / pstep (the process model of executeEach) are the ones meant by the unqualified
+   names below; the Pull model's are written TraitGroup.pstate / TraitGroup.pstep *)
+From SC Require Import Group.ExecProc Group.ExecProcProofs.
+Open Scope Z_scope.
 
 (* The model equals the contract for EVERY API, member count, outcome vector, awareness (members that
    ignore their context and members that return a context error as soon as it is cancelled, in any
@@ -264,3 +272,424 @@ Proof.
   - reflexivity.
   - intros [E _]. discriminate.
 Qed.
+
+(* ================= executeEach as processes: the call itself comes back ================= *)
+
+(* not only do the goroutines executeEach starts end: the caller's range loop ends too (early return,
+   or channel closed and drained), on every schedule, for every member count, under the same
+   hypothesis (room for every member, or a caller that never leaves early) *)
+Theorem C17_call_returns : forall cap stop n s,
+  (n <= cap \/ forall l, stop l = false)%nat ->
+  reachable cap stop n s -> members_returned s -> inevitably cap stop returned s.
+Proof. exact call_returns. Qed.
+Print Assumptions C17_call_returns.
+
+(* the empty group: every strategy's loop ends and nothing is left, whatever the capacity; the only
+   goroutine that can move is the closer (without it nothing ever closes the channel) *)
+Theorem C17_empty_group_returns : forall cap stop,
+  inevitably cap stop returned (proc_init 0) /\
+  forall s', pstep cap stop (proc_init 0) s' -> s' = mkP [] [] [] true true.
+Proof. intros. split; [apply empty_group_returns|apply empty_group_only_closer_moves]. Qed.
+Print Assumptions C17_empty_group_returns.
+
+(* the closer closes the channel only after every member goroutine has completed its send: no send
+   on a closed channel (a panic in Go) on any schedule *)
+Theorem C17_never_sends_on_closed_channel : forall cap stop n s i,
+  reachable cap stop n s -> p_closed s = true ->
+  nth_error (p_ms s) i <> Some MSend /\ nth_error (p_ms s) i <> Some MRun.
+Proof. exact never_sends_on_closed_channel. Qed.
+Print Assumptions C17_never_sends_on_closed_channel.
+
+(* a caller that never leaves early (ExecuteUpTo, hence All / Most / Any) has received every
+   member's response exactly once when its loop has ended: "waits for all" *)
+Theorem C17_never_stopping_caller_receives_all : forall cap stop n s,
+  (forall l, stop l = false) -> reachable cap stop n s -> p_listening s = false ->
+  Permutation.Permutation (p_recvd s) (seq 0 n).
+Proof. exact never_stopping_caller_receives_all. Qed.
+Print Assumptions C17_never_stopping_caller_receives_all.
+
+(* ================= the parent context cancelled from outside ================= *)
+(* Vocabulary (Group/ExecPc.v): an event list (ERel i: member i is allowed to finish; EPar: the
+   parent context is cancelled), pre = the parent context was already cancelled when the call was
+   made; exec_ev a ms pre evs = the event model; its trace = the responses that reached the
+   receiving loop, in order.  trace_wf ms tr: every element of tr is some member's own response or
+   the context error of a cancellation-aware member, each member at most once.
+   upto_law / fast_law / race_law: the three loops in closed form over a received sequence. *)
+
+(* an event list without a parent cancellation is exactly the model the theorems above are about *)
+Theorem C17_event_model_extends_model : forall a ms order c0,
+  loop_of a (List.length ms) = Some c0 ->
+  exec_ev a ms false (map ERel order) = exec a ms order.
+Proof. exact exec_ev_conservative. Qed.
+Print Assumptions C17_event_model_extends_model.
+
+(* "the error returned is the first one observed", for ANY members, ANY event list (releases in any
+   order, repeated, missing; the parent cancelled at any moment, several times, or before the call):
+   there is a well-formed received sequence tr such that the call, if it has returned, returned its
+   loop's law applied to tr. *)
+Theorem C17_first_error_observed : forall a ms pre evs c0,
+  loop_of a (List.length ms) = Some c0 ->
+  exists tr, trace_wf ms tr /\
+    (x_ret (exec_ev a ms pre evs) = wrap_of a (List.length ms) RHang \/
+     x_ret (exec_ev a ms pre evs) = wrap_of a (List.length ms) (law_of c0 (List.length ms) tr)).
+Proof. exact first_error_observed. Qed.
+Print Assumptions C17_first_error_observed.
+
+(* ExecuteUpTo spelled out: slot j holds the message of the response received from member j; the call
+   fails exactly when more than k of the received responses carry an error, and then returns the
+   FIRST error of the received sequence — a member's own error or, when the parent context was
+   cancelled first, a cancellation-aware member's context error *)
+Theorem C17_upto_error_is_first_observed : forall k ms pre evs,
+  exists tr, trace_wf ms tr /\
+    (x_ret (exec_ev (AUpTo k) ms pre evs) = RHang \/
+     x_ret (exec_ev (AUpTo k) ms pre evs) =
+       RSlice (ExecPc.slots (List.length ms) tr) (if k <? count_err tr then first_err_of tr else 0)).
+Proof. exact upto_error_first_observed. Qed.
+Print Assumptions C17_upto_error_is_first_observed.
+
+Theorem C17_fast_returns_first_success_else_first_error_observed : forall ms pre evs,
+  exists tr, trace_wf ms tr /\
+    (x_ret (exec_ev AFast ms pre evs) = RHang \/ x_ret (exec_ev AFast ms pre evs) = fast_law tr).
+Proof. exact fast_first_observed. Qed.
+Print Assumptions C17_fast_returns_first_success_else_first_error_observed.
+
+Theorem C17_race_returns_first_observed : forall ms pre evs,
+  exists tr, trace_wf ms tr /\
+    (x_ret (exec_ev ARace ms pre evs) = RHang \/ x_ret (exec_ev ARace ms pre evs) = race_law tr).
+Proof. exact race_first_observed. Qed.
+Print Assumptions C17_race_returns_first_observed.
+
+(* once every member has been allowed to finish the call has returned — never RHang, never a panic,
+   nothing left behind — whatever else happened (parent cancelled or not, at any point) *)
+Theorem C17_call_returns_under_events : forall a ms pre evs c0,
+  loop_of a (List.length ms) = Some c0 ->
+  (forall i, (i < List.length ms)%nat -> In (ERel i) evs) ->
+  x_ret (exec_ev a ms pre evs) <> wrap_of a (List.length ms) RHang /\
+  x_ret (exec_ev a ms pre evs) <> RPanic /\ x_leak (exec_ev a ms pre evs) = 0.
+Proof. exact call_returns_ev. Qed.
+Print Assumptions C17_call_returns_under_events.
+
+(* scripted response sequences (cases KSeq: arbitrary messages and errors, the same error value from
+   several members, nil messages): the fold of the model's recv over the sequence is the closed-form
+   law, so an observation that agrees with the model satisfies the predicate *)
+Theorem C17_scripted_sequence_law : forall a n rs, seq_model a n rs = seq_law a n rs.
+Proof. exact seq_model_is_law. Qed.
+Print Assumptions C17_scripted_sequence_law.
+
+Theorem C17_scripted_judge_sound : forall a n rs obs,
+  pagrees (KSeq a n rs obs) = true -> C17P_ok (KSeq a n rs obs) = true.
+Proof. exact seq_judge_sound. Qed.
+Print Assumptions C17_scripted_judge_sound.
+
+(* never panics under events either: any API (ExecuteOne included), any members, any event list *)
+Theorem C17_never_panics_under_events : forall a ms pre evs, x_ret (exec_ev a ms pre evs) <> RPanic.
+Proof. exact exec_ev_never_panics. Qed.
+Print Assumptions C17_never_panics_under_events.
+
+(* non-vacuity: Most, 4 members; member 3 succeeds, then the parent context is cancelled: the two
+   cancellation-aware members return context errors (within the budget of 2), then member 1 fails:
+   the error returned is the first one observed, member 0's context error *)
+Example C17_nonvacuous_parent_cancel :
+  let ms := [mkM Ok true; mkM Fail false; mkM Ok true; mkM Ok false] in
+  let evs := [ERel 3; EPar; ERel 1; ERel 0; ERel 2]%nat in
+  exec_ev (AExecute 2) ms false evs = mkRes (RSlice [0; 0; 0; 4] 1001) [0; 1; 2; 3] 2 3 [2; -1; 2; -1] 0 /\
+  t_tr (run_par_t (CUpTo 2 (empty_upto 4)) ms false evs) = [mkR 3 4 0; mkR 0 0 1001; mkR 2 0 1003; mkR 1 0 2] /\
+  contract_ev (AExecute 2) ms false evs = exec_ev (AExecute 2) ms false evs.
+Proof. cbv zeta. repeat split; reflexivity. Qed.
+
+(* ================= obligations over the source (Gen/GroupExec.v, regenerated on every run) ================= *)
+
+(* Execute's switch as read from pkg/group/exec.go is the model's dispatch for every integer *)
+Theorem C17_execute_dispatch_from_source : forall s ms order,
+  exec (AExecute s) ms order = run_target (code_target s) ms order.
+Proof. exact execute_dispatch_from_source. Qed.
+Print Assumptions C17_execute_dispatch_from_source.
+
+(* executeEach as read from the source has the shape the process model was written from:
+   capacity len(members) (the hypothesis n <= cap of C17_goroutines_end / C17_call_returns),
+   all.Add(len(members)), member goroutines that send before reporting Done, one closer goroutine *)
+Theorem C17_execute_each_shape_from_source :
+  Gen.GroupExec.each_chan_cap = "len(members)"%string /\
+  Gen.GroupExec.each_wg_add = "all.Add(len(members))"%string /\
+  Gen.GroupExec.each_go_statements = 2.
+Proof. destruct execute_each_shape as [A [B [C _]]]. auto. Qed.
+Print Assumptions C17_execute_each_shape_from_source.
+
+(* ================================================================================================
+   The callers of group.Execute: pkg/trait/onoffpb/group.go and pkg/trait/lightpb/group.go
+   (Group/TraitGroup.v, Group/TraitGroupJudge.v; second generator "C17T" of the harness).
+
+   Vocabulary:
+     unary s ms vals order   a Get/Update call of a trait group with execution strategy s: Execute's part is
+                   [exec (AExecute s) ms order]; vals (VOnOff states | VLight levels, exact rationals) are the
+                   values the members report; the result is what the harness observes (uobs): value or nil,
+                   error, and Execute's observables
+     slots d res vals   the result slice as the reducers see it: slot j holds vals[j] iff Execute's slot j is
+                   populated
+     onoff_reduce / light_reduce   the reducers of the code (light: (acc*i + v)/(i+1) with i the member INDEX)
+     onoff_spec / light_spec       closed forms used by the judge (TraitGroupJudge.v)
+   ================================================================================================ *)
+
+(* error mapping: the call returns an error iff Execute does, the same one, and then no value;
+   otherwise the reduction of Execute's result slots *)
+Theorem C17_trait_unary_error_mapping : forall s ms vals order res err,
+  x_ret (exec (AExecute s) ms order) = RSlice res err ->
+  let u := unary s ms vals order in
+  uo_kind u = 0 /\ uo_err u = err /\ (err <> 0 -> uo_val u = None) /\
+  (err = 0 -> uo_val u = Some (reduce_vals res vals)).
+Proof. exact unary_error_mapping. Qed.
+Print Assumptions C17_trait_unary_error_mapping.
+
+(* the Execute part of every unary call equals the closed-form contract *)
+Theorem C17_trait_unary_meets_contract : forall s ms vals order, is_perm order (List.length ms) ->
+  unary s ms vals order = unary_of (contract (AExecute s) ms order) vals.
+Proof. exact unary_meets_contract. Qed.
+Print Assumptions C17_trait_unary_meets_contract.
+
+(* onoff reducer, closed form: ON if some populated slot is ON, else the first populated value that is not
+   UNSPECIFIED (index order), else UNSPECIFIED *)
+Theorem C17_onoff_reduce_closed_form : forall sl,
+  ((exists j, nth_error sl j = Some (Some 1)) -> onoff_reduce sl = 1) /\
+  ((forall j, nth_error sl j <> Some (Some 1)) ->
+     forall j v, nth_error sl j = Some (Some v) -> v <> 0 ->
+     (forall k w, (k < j)%nat -> nth_error sl k = Some (Some w) -> w = 0) -> onoff_reduce sl = v) /\
+  ((forall j v, nth_error sl j = Some (Some v) -> v = 0) -> onoff_reduce sl = 0).
+Proof. exact onoff_reduce_cases. Qed.
+Print Assumptions C17_onoff_reduce_closed_form.
+
+(* level reducer: with every slot populated the result is the arithmetic mean (over Q) *)
+Theorem C17_light_reduce_is_mean_without_holes : forall vs, vs <> [] ->
+  (light_reduce (map Some vs) == fold_right Qplus 0 vs / qi (List.length vs))%Q.
+Proof. exact light_reduce_mean. Qed.
+Print Assumptions C17_light_reduce_is_mean_without_holes.
+
+(* level reducer in general: the weighted sum  sum_j v_j/(j+1) * prod_{k>j populated} k/(k+1) *)
+Theorem C17_light_reduce_closed_form : forall sl, (light_reduce sl == light_spec sl)%Q.
+Proof. exact light_reduce_closed_form. Qed.
+Print Assumptions C17_light_reduce_closed_form.
+
+(* OBSERVATION about lightpb (outside the property text, not a finding): the reducer weights by the member's
+   index, so with an unpopulated slot (a failed member tolerated by Most/Any, or One/Fast/Race where a single
+   slot is populated) the result is NOT the mean of the values present: a single level 60 at index 1 gives 30;
+   levels 100 and 40 at indices 0 and 2 give 80, not 70 *)
+Theorem C17_light_reduce_with_holes_is_not_mean_witness :
+  (light_reduce [None; Some (60#1)] == 30#1)%Q /\ ~ ((30#1) == (60#1))%Q /\
+  (light_reduce [Some (100#1); None; Some (40#1)] == 80#1)%Q /\
+  ~ (80#1 == ((100#1) + (40#1)) / (2#1))%Q.
+Proof. exact light_holes_not_mean_witness. Qed.
+Print Assumptions C17_light_reduce_with_holes_is_not_mean_witness.
+
+(* headline, onoff: for every strategy, members, values and completion order the call is determined by the
+   closed-form contract of Execute: same error (and then no value), otherwise the closed-form reduction of
+   the values of exactly the members whose slot the contract populates, each at its own index; invoked
+   members, cancellation step, return step, what aware members saw are the contract's; nothing is left *)
+Theorem C17_onoff_unary_contract : forall s ms vals order, is_perm order (List.length ms) ->
+  exists res err, x_ret (contract (AExecute s) ms order) = RSlice res err /\ List.length res = List.length ms /\
+    let c := contract (AExecute s) ms order in
+    let u := unary s ms (VOnOff vals) order in
+    uo_kind u = 0 /\ uo_err u = err /\ (err <> 0 -> uo_val u = None) /\
+    (err = 0 -> uo_val u = Some (XOnOff (onoff_spec (slots 0 res vals)))) /\
+    uo_calls u = x_calls c /\ uo_cancel u = x_cancel c /\ uo_retstep u = x_retstep c /\
+    uo_saw u = x_saw c /\ uo_leak u = 0.
+Proof. exact onoff_unary_contract. Qed.
+Print Assumptions C17_onoff_unary_contract.
+
+(* headline, light *)
+Theorem C17_light_unary_contract : forall s ms vals order, is_perm order (List.length ms) ->
+  exists res err, x_ret (contract (AExecute s) ms order) = RSlice res err /\ List.length res = List.length ms /\
+    let c := contract (AExecute s) ms order in
+    let u := unary s ms (VLight vals) order in
+    uo_kind u = 0 /\ uo_err u = err /\ (err <> 0 -> uo_val u = None) /\
+    (err = 0 -> exists q, uo_val u = Some (XLight q) /\ (q == light_spec (slots 0%Q res vals))%Q) /\
+    uo_calls u = x_calls c /\ uo_cancel u = x_cancel c /\ uo_retstep u = x_retstep c /\
+    uo_saw u = x_saw c /\ uo_leak u = 0.
+Proof. exact light_unary_contract. Qed.
+Print Assumptions C17_light_unary_contract.
+
+(* strategy All (also Unspecified / unknown numbers), context-ignoring members, no failure: the value is the
+   reduction of ALL members' values; for levels, their arithmetic mean *)
+Theorem C17_onoff_all_reduces_every_member : forall s ms vals order, all_plain ms -> is_perm order (List.length ms) ->
+  (s <> 2 /\ s <> 3 /\ s <> 4 /\ s <> 5 /\ s <> 6) -> List.length vals = List.length ms ->
+  (forall i, (i < List.length ms)%nat -> failed ms i = false) ->
+  let u := unary s ms (VOnOff vals) order in
+  uo_err u = 0 /\ uo_val u = Some (XOnOff (onoff_spec (map Some vals))).
+Proof. exact onoff_all_reduces_every_member. Qed.
+Print Assumptions C17_onoff_all_reduces_every_member.
+
+Theorem C17_light_all_is_mean : forall s ms vals order, all_plain ms -> is_perm order (List.length ms) ->
+  (s <> 2 /\ s <> 3 /\ s <> 4 /\ s <> 5 /\ s <> 6) -> List.length vals = List.length ms ->
+  (forall i, (i < List.length ms)%nat -> failed ms i = false) -> vals <> [] ->
+  let u := unary s ms (VLight vals) order in
+  uo_err u = 0 /\ exists q, uo_val u = Some (XLight q) /\ (q == fold_right Qplus 0 vals / qi (List.length vals))%Q.
+Proof. exact light_all_is_mean. Qed.
+Print Assumptions C17_light_all_is_mean.
+
+(* Fast / Race with a winner i that returns a message: only slot i is populated, at the winner's own index;
+   the onoff value is vals[i]; the level is vals[i]/(i+1) (the index-weighted reducer again) *)
+Theorem C17_trait_single_strategy_uses_own_index : forall s ms order i, is_perm order (List.length ms) ->
+  (s = 5 \/ s = 6) ->
+  (s = 5 -> first_in (succeeded ms) order i) ->
+  (s = 6 -> succeeded ms i = true /\ exists q, order = i :: q) ->
+  (i < List.length ms)%nat /\
+  x_ret (exec (AExecute s) ms order) = RSlice (single_at ms (Z.of_nat i) (zi i)) 0 /\
+  (forall vals, let u := unary s ms (VOnOff vals) order in
+     uo_err u = 0 /\ uo_val u = Some (XOnOff (nth i vals 0))) /\
+  (forall vals, let u := unary s ms (VLight vals) order in
+     uo_err u = 0 /\ exists q, uo_val u = Some (XLight q) /\ (q == nth i vals 0 / (qi i + 1))%Q).
+Proof. exact single_strategy_uses_own_index. Qed.
+Print Assumptions C17_trait_single_strategy_uses_own_index.
+
+(* the judge of the second generator is sound for unary calls: on guarded inputs the model satisfies the
+   closed-form predicate, and so does every observation that agrees with the model *)
+Theorem C17_trait_unary_model_ok : forall tk w s ms vals order,
+  C17T_guard (KUnary tk w s ms vals order (unary s ms vals order)) = true ->
+  C17T_ok (KUnary tk w s ms vals order (unary s ms vals order)) = true.
+Proof. exact unary_model_ok. Qed.
+Print Assumptions C17_trait_unary_model_ok.
+
+Theorem C17_trait_unary_judge_sound : forall tk w s ms vals order obs,
+  C17T_guard (KUnary tk w s ms vals order obs) = true -> tagrees (KUnary tk w s ms vals order obs) = true ->
+  C17T_ok (KUnary tk w s ms vals order obs) = true.
+Proof. exact unary_judge_sound. Qed.
+Print Assumptions C17_trait_unary_judge_sound.
+
+(* ================================================================================================
+   PullOnOff / PullBrightness (Group/TraitGroup.v part B).
+     pull reduce veqb ms fail_at strategy evs   the state after the events evs (one per harness step, numbered
+                   from 1): EMsg i chs = member i's stream delivers a message, EEnd i = member i's stream ends
+                   with its error, EParent = the server context is cancelled.  p_w = the world of Exec.v in which
+                   group.Execute runs on its own goroutine; p_hist = (member, end change) of every message the
+                   main loop processed; p_sent = the messages passed to server.Send (s_at m = number of messages
+                   processed when m was sent); p_failed = the error of the Send that failed; p_ret = step and
+                   error of Pull's return.  fail_at = which Send fails (0: none).
+     changes_of n hist   the latest change of each of the n members, at the member's own index
+     pull_onoff / pull_light   the two instances (reducers onoff_reduce_p / light_reduce_p, proto.Equal on the
+                   value = Z.eqb / Qeq_bool)
+   All statements are for EVERY event list.  What is NOT proved: anything about the Go runtime - that the
+   goroutine running Execute ends after `returnErr <- err` (the channel has capacity 1, and both return paths
+   of the loop receive from it) is part of the model and is observed by the harness (goroutine dump after
+   the last step), not a theorem.
+   ================================================================================================ *)
+
+(* every message sent is the reduction of the latest change of each member at its own index at that moment;
+   it differs from the previous one sent (for a reducer that can fall back to "nothing" the same value may be
+   sent again after such a fallback: the disjunct; the two real reducers cannot, see the next two theorems) *)
+Theorem C17_pull_sent_are_reductions : forall V (reduce : list (option V) -> option V) veqb ms fail_at strategy evs,
+  let st := pull reduce veqb ms fail_at strategy evs in
+  let n := List.length ms in
+  p_changes st = changes_of n (p_hist st) /\
+  (forall k m, nth_error (p_sent st) k = Some m ->
+     (1 <= s_at m <= List.length (p_hist st))%nat /\
+     reduce (changes_of n (firstn (s_at m) (p_hist st))) = Some (s_val m) /\
+     match k with
+     | O => True
+     | S k' => forall m', nth_error (p_sent st) k' = Some m' ->
+                 (s_at m' < s_at m)%nat /\
+                 (veqb (s_val m') (s_val m) = false \/
+                  exists j, (s_at m' < j < s_at m)%nat /\
+                            reduce (changes_of n (firstn j (p_hist st))) = None)
+     end).
+Proof. exact pull_sent_are_reductions. Qed.
+Print Assumptions C17_pull_sent_are_reductions.
+
+Theorem C17_pull_onoff_sent_are_reductions : forall ms fail_at strategy evs,
+  let st := pull_onoff ms fail_at strategy evs in
+  let n := List.length ms in
+  p_changes st = changes_of n (p_hist st) /\
+  (forall k m, nth_error (p_sent st) k = Some m ->
+     (1 <= s_at m <= List.length (p_hist st))%nat /\
+     onoff_reduce_p (changes_of n (firstn (s_at m) (p_hist st))) = Some (s_val m) /\
+     match k with
+     | O => True
+     | S k' => forall m', nth_error (p_sent st) k' = Some m' ->
+                 (s_at m' < s_at m)%nat /\ (s_val m' =? s_val m) = false
+     end).
+Proof.
+  intros ms fail_at strategy evs.
+  exact (pull_sent_are_reductions_exact Z onoff_reduce_p Z.eqb ms fail_at strategy evs onoff_none_only).
+Qed.
+Print Assumptions C17_pull_onoff_sent_are_reductions.
+
+Theorem C17_pull_light_sent_are_reductions : forall ms fail_at strategy evs,
+  let st := pull_light ms fail_at strategy evs in
+  let n := List.length ms in
+  p_changes st = changes_of n (p_hist st) /\
+  (forall k m, nth_error (p_sent st) k = Some m ->
+     (1 <= s_at m <= List.length (p_hist st))%nat /\
+     light_reduce_p (changes_of n (firstn (s_at m) (p_hist st))) = Some (s_val m) /\
+     match k with
+     | O => True
+     | S k' => forall m', nth_error (p_sent st) k' = Some m' ->
+                 (s_at m' < s_at m)%nat /\ Qeq_bool (s_val m') (s_val m) = false
+     end).
+Proof.
+  intros ms fail_at strategy evs.
+  exact (pull_sent_are_reductions_exact Q light_reduce_p Qeq_bool ms fail_at strategy evs light_none_only).
+Qed.
+Print Assumptions C17_pull_light_sent_are_reductions.
+
+(* nothing is withheld: after every processed message the last value sent (lastChange) equals the reduction of
+   the members' latest changes *)
+Theorem C17_pull_stream_up_to_date : forall V reduce veqb ms fail_at strategy evs, (forall v : V, veqb v v = true) ->
+  let st := pull reduce veqb ms fail_at strategy evs in
+  p_hist st <> [] -> option_eqb veqb (p_last st) (reduce (changes_of (List.length ms) (p_hist st))) = true.
+Proof. exact pull_stream_up_to_date. Qed.
+Print Assumptions C17_pull_stream_up_to_date.
+
+(* the reducers of the Pull loops in closed form *)
+Theorem C17_pull_onoff_reduce_closed_form : forall sl, onoff_reduce_p sl = onoff_spec_p sl.
+Proof. exact onoff_reduce_p_closed_form. Qed.
+Print Assumptions C17_pull_onoff_reduce_closed_form.
+
+Theorem C17_pull_light_reduce_closed_form : forall sl, oq_eq (light_reduce_p sl) (light_spec_p sl).
+Proof. exact light_reduce_p_closed_form. Qed.
+Print Assumptions C17_pull_light_reduce_closed_form.
+
+(* Pull returns exactly when, and at the very step at which, Execute has returned; its error is Execute's, or
+   the error of the Send that failed *)
+Theorem C17_pull_returns_with_execute : forall V (reduce : list (option V) -> option V) veqb ms fail_at strategy evs,
+  let st := pull reduce veqb ms fail_at strategy evs in
+  match p_ret st with
+  | None => w_ret (p_w st) = None
+  | Some (s, e) => w_ret (p_w st) = Some s /\
+                   e = match p_failed st with Some e' => e' | None => exec_err (p_w st) end
+  end.
+Proof. exact pull_returns_with_execute. Qed.
+Print Assumptions C17_pull_returns_with_execute.
+
+(* once every member has returned, Pull has returned (also after a failed Send) *)
+Theorem C17_pull_returns_once_members_returned : forall V reduce veqb ms fail_at strategy evs,
+  let st := pull (V:=V) reduce veqb ms fail_at strategy evs in
+  forallb negb (w_live (p_w st)) = true -> p_ret st <> None.
+Proof. exact pull_returns_once_members_returned. Qed.
+Print Assumptions C17_pull_returns_once_members_returned.
+
+(* after a failed Send: Pull waits for Execute and then returns that Send's error, nothing else *)
+Theorem C17_pull_failed_send_waits : forall V reduce veqb ms fail_at strategy evs e,
+  let st := pull (V:=V) reduce veqb ms fail_at strategy evs in
+  p_failed st = Some e ->
+  (p_ret st = None <-> w_ret (p_w st) = None) /\ forall s e', p_ret st = Some (s, e') -> e' = e.
+Proof. exact pull_failed_send_waits. Qed.
+Print Assumptions C17_pull_failed_send_waits.
+
+(* strategy All (and Unspecified / unknown numbers): after any events that left the context uncancelled, the
+   first member whose stream ends cancels every other cancellation-aware member's stream at that very step *)
+Theorem C17_pull_all_first_error_cancels_everyone : forall V reduce veqb ms fail_at strategy evs i s,
+  let st := pull (V:=V) reduce veqb ms fail_at strategy evs in
+  members_ok ms = true -> strategy <> 2 -> strategy <> 3 -> strategy <> 5 -> strategy <> 6 ->
+  w_cancel (p_w st) = None -> nth i (w_live (p_w st)) false = true ->
+  let st' := TraitGroup.pstep reduce veqb ms fail_at s st (EEnd i) in
+  w_cancel (p_w st') = Some s /\
+  forall j, (j < List.length ms)%nat -> aware_at ms j = true ->
+    nth j (w_live (p_w st')) false = false /\
+    (nth j (w_live (p_w st)) false = true -> j <> i -> nth j (w_saw (p_w st')) (-1) = Z.of_nat s).
+Proof. exact pull_all_first_error_cancels_everyone_at. Qed.
+Print Assumptions C17_pull_all_first_error_cancels_everyone.
+
+Example C17_nonvacuous_pull :
+  let st := pull onoff_reduce_p Z.eqb [mkM Fail true; mkM Fail true] 0 1
+                 [EMsg 0 [(2, 7)]; EMsg 1 [(1, 0)]; EMsg 1 [(1, 9)]; EEnd 0] in
+  map s_val (p_sent st) = [2; 1] /\ map s_at (p_sent st) = [1%nat; 2%nat] /\
+  p_ret st = Some (4%nat, 1) /\ w_saw (p_w st) = [-1; 4] /\ w_cancel (p_w st) = Some 4%nat /\
+  w_live (p_w st) = [false; false].
+Proof. exact pull_onoff_example. Qed.
